@@ -1357,8 +1357,7 @@ def r_delshift(E):
                                    "follows one place down, so from the second deletion on another element is removed — "
                                    "they are deleted from the end (`reversed`, `sorted(…, reverse=True)`)")
     for mod, (rel, tree, src) in sorted(pm.modules.items()):
-        res.instances += len([n for n in ast.walk(tree) if isinstance(n, ast.Delete)
-                              or (isinstance(n, ast.Call) and isinstance(n.func, ast.Attribute) and n.func.attr == "pop")])
+        res.instances += len([n for n in ast.walk(tree) if isinstance(n, ast.For)])
         for fn, loop, seq in shifting_deletions(tree):
             res.findings.append(Finding(
                 "R-DELSHIFT", f"{rel}:{fn.name} :: deletes from {seq} by increasing position",
@@ -1372,7 +1371,7 @@ def r_delshift(E):
         raise AnalysisError(f"R-DELSHIFT: embedded examples: {len(pos)} of 1 positive recognised, {len(neg)} false reports")
     res.instances += 1
     res.samples = [{"embedded_positive_example_recognised": True, "embedded_twins_silent": True}]
-    res.floor = 10
+    res.floor = 40
     return res
 
 
